@@ -7,13 +7,20 @@
    are atan2 of the first/last control-polygon leg (and (cos,sin) of them is the unit leg); curvature of a cubic and of
    a quadratic equals (x'y''-y'x'')/(x'^2+y'^2)^(3/2) with x'',y'' the derivative of the hodograph (also in Derive /
    Derive_n 2 form); a line's curvature is 2^-52.
-   NOT covered by a theorem: floating-point error; x ** 1.5 and x ** 2 are libm pow in CPython (compared at 1e-12). *)
+   Floating-point clause (Proofs/C18float.v, Flocq, binary64 instance FOps of the same regenerated text): for finite control coordinates
+   of magnitude <= M in [2^-300, 2^480], finite t in [0,1] and exact speed s >= 2^-32 M, the binary64 tangent and normal of a cubic
+   (quadratic) are finite, each component within 550 u M/s (135 u M/s) of the exact unit derivative, u = 2^-53, and of Euclidean norm
+   within 5 u of 1; with s >= M/1024 that is within 1e-10; the arch at t = 1/4 as a closed example.
+   NOT covered by a theorem: floating-point error of the curvature and of the angles; x ** 1.5 and x ** 2 are libm pow and atan2 is libm
+   in CPython (compared at 1e-12). *)
 
+From Flocq Require Import Core.   (* bpow, radix2 for the float-clause statements; imported first so that [float] below is PrimFloat.float *)
 From Coq Require Import PrimFloat.
 From Coq Require Import ZArith List Bool Reals Lra Permutation.
 From Coquelicot Require Import Coquelicot.
-From BZ Require Import Base.Ops Gen.Point Gen.Line Gen.Quad Gen.Cubic Proofs.C18.
+From BZ Require Import Base.Ops Gen.Point Gen.Line Gen.Quad Gen.Cubic Proofs.C18 Base.FloatErr Proofs.C01float.
 Import ListNotations.
+From BZ Require Proofs.C18float.
 Open Scope R_scope.
 
 Theorem C18_tangent_is_unit_derivative_quad :
@@ -82,6 +89,36 @@ Proof. exact cubic_tangent_example_mid. Qed.
 Theorem C18_cubic_normal_example :
   Cubic_normalAtTime ROps (C4 (P 0 0) (P 1 0) (P 1 1) (P 2 1)) 0 = P 0 1.
 Proof. exact cubic_normal_example. Qed.
+Theorem C18_cubic_tangent_float_close :
+  forall (M : R) (c : seg4 float) (t : float), bpow radix2 (-300) <= M <= bpow radix2 480 -> seg4_ok M c -> t_ok t -> M <= bpow radix2 32 * C18float.cubic_speed c t -> pt_close (Cubic_tangentAtTime FOps c t) (Cubic_tangentAtTime ROps (seg4R c) (FR t)) (550 * u * (M / C18float.cubic_speed c t)) /\ Rabs (C18float.norm2 (FR (px (Cubic_tangentAtTime FOps c t))) (FR (py (Cubic_tangentAtTime FOps c t))) - 1) <= 5 * u.
+Proof. exact @C18float.cubic_tangent_float_close. Qed.
+Theorem C18_quad_tangent_float_close :
+  forall (M : R) (q : seg3 float) (t : float), bpow radix2 (-300) <= M <= bpow radix2 480 -> seg3_ok M q -> t_ok t -> M <= bpow radix2 32 * C18float.quad_speed q t -> pt_close (Quad_tangentAtTime FOps q t) (Quad_tangentAtTime ROps (seg3R q) (FR t)) (135 * u * (M / C18float.quad_speed q t)) /\ Rabs (C18float.norm2 (FR (px (Quad_tangentAtTime FOps q t))) (FR (py (Quad_tangentAtTime FOps q t))) - 1) <= 5 * u.
+Proof. exact @C18float.quad_tangent_float_close. Qed.
+Theorem C18_cubic_tangent_float_unit_derivative :
+  forall (M : R) (c : seg4 float) (t : float), bpow radix2 (-300) <= M <= bpow radix2 480 -> seg4_ok M c -> t_ok t -> let d := Quad_pointAtTime ROps (Cubic_derivative ROps (seg4R c)) (FR t) in let s := sqrt (px d * px d + py d * py d) in M <= bpow radix2 32 * s -> let T := Cubic_tangentAtTime FOps c t in ffinite (px T) /\ ffinite (py T) /\ Rabs (FR (px T) - px d / s) <= 550 * u * (M / s) /\ Rabs (FR (py T) - py d / s) <= 550 * u * (M / s) /\ Rabs (sqrt (FR (px T) * FR (px T) + FR (py T) * FR (py T)) - 1) <= 5 * u.
+Proof. exact @C18float.cubic_tangent_float_unit_derivative. Qed.
+Theorem C18_quad_tangent_float_unit_derivative :
+  forall (M : R) (q : seg3 float) (t : float), bpow radix2 (-300) <= M <= bpow radix2 480 -> seg3_ok M q -> t_ok t -> let d := Line_pointAtTime ROps (Quad_derivative ROps (seg3R q)) (FR t) in let s := sqrt (px d * px d + py d * py d) in M <= bpow radix2 32 * s -> let T := Quad_tangentAtTime FOps q t in ffinite (px T) /\ ffinite (py T) /\ Rabs (FR (px T) - px d / s) <= 135 * u * (M / s) /\ Rabs (FR (py T) - py d / s) <= 135 * u * (M / s) /\ Rabs (sqrt (FR (px T) * FR (px T) + FR (py T) * FR (py T)) - 1) <= 5 * u.
+Proof. exact @C18float.quad_tangent_float_unit_derivative. Qed.
+Theorem C18_cubic_normal_float_close :
+  forall (M : R) (c : seg4 float) (t : float), bpow radix2 (-300) <= M <= bpow radix2 480 -> seg4_ok M c -> t_ok t -> M <= bpow radix2 32 * C18float.cubic_speed c t -> pt_close (Cubic_normalAtTime FOps c t) (Cubic_normalAtTime ROps (seg4R c) (FR t)) (550 * u * (M / C18float.cubic_speed c t)) /\ Rabs (C18float.norm2 (FR (px (Cubic_normalAtTime FOps c t))) (FR (py (Cubic_normalAtTime FOps c t))) - 1) <= 5 * u.
+Proof. exact @C18float.cubic_normal_float_close. Qed.
+Theorem C18_quad_normal_float_close :
+  forall (M : R) (q : seg3 float) (t : float), bpow radix2 (-300) <= M <= bpow radix2 480 -> seg3_ok M q -> t_ok t -> M <= bpow radix2 32 * C18float.quad_speed q t -> pt_close (Quad_normalAtTime FOps q t) (Quad_normalAtTime ROps (seg3R q) (FR t)) (135 * u * (M / C18float.quad_speed q t)) /\ Rabs (C18float.norm2 (FR (px (Quad_normalAtTime FOps q t))) (FR (py (Quad_normalAtTime FOps q t))) - 1) <= 5 * u.
+Proof. exact @C18float.quad_normal_float_close. Qed.
+Theorem C18_cubic_tangent_float_1e10 :
+  forall (M : R) (c : seg4 float) (t : float), bpow radix2 (-300) <= M <= bpow radix2 480 -> seg4_ok M c -> t_ok t -> M <= 1024 * C18float.cubic_speed c t -> pt_close (Cubic_tangentAtTime FOps c t) (Cubic_tangentAtTime ROps (seg4R c) (FR t)) 1e-10 /\ pt_close (Cubic_normalAtTime FOps c t) (Cubic_normalAtTime ROps (seg4R c) (FR t)) 1e-10.
+Proof. exact @C18float.cubic_tangent_float_1e10. Qed.
+Theorem C18_quad_tangent_float_1e10 :
+  forall (M : R) (q : seg3 float) (t : float), bpow radix2 (-300) <= M <= bpow radix2 480 -> seg3_ok M q -> t_ok t -> M <= 1024 * C18float.quad_speed q t -> pt_close (Quad_tangentAtTime FOps q t) (Quad_tangentAtTime ROps (seg3R q) (FR t)) 1e-10 /\ pt_close (Quad_normalAtTime FOps q t) (Quad_normalAtTime ROps (seg3R q) (FR t)) 1e-10.
+Proof. exact @C18float.quad_tangent_float_1e10. Qed.
+Theorem C18_toUnitVector_float_norm :
+  forall X Y : float, ffinite X -> ffinite Y -> Rabs (FR X) <= bpow radix2 500 -> Rabs (FR Y) <= bpow radix2 500 -> bpow radix2 (-400) <= C18float.norm2 (FR X) (FR Y) -> Rabs (C18float.norm2 (FR (px (Point_toUnitVector FOps {| px := X; py := Y |}))) (FR (py (Point_toUnitVector FOps {| px := X; py := Y |}))) - 1) <= 5 * u.
+Proof. exact @C18float.toUnitVector_float_norm. Qed.
+Theorem C18_arch_tangent_example :
+  let T := Cubic_tangentAtTime FOps C18float.ex_arch C18float.ex_quarter in T = {| px := 0x1.3333333333333p-1%float; py := 0x1.999999999999ap-1%float |} /\ ffinite (px T) /\ ffinite (py T) /\ Rabs (FR (px T) - 3 / 5) <= 550 * u * (100 / (375 / 2)) /\ Rabs (FR (py T) - 4 / 5) <= 550 * u * (100 / (375 / 2)) /\ Rabs (C18float.norm2 (FR (px T)) (FR (py T)) - 1) <= 5 * u.
+Proof. exact @C18float.arch_tangent_example. Qed.
 
 Print Assumptions C18_tangent_is_unit_derivative_quad.
 Print Assumptions C18_tangent_is_unit_derivative_cubic.
@@ -105,3 +142,13 @@ Print Assumptions C18_line_curvature_negligible.
 Print Assumptions C18_quad_curvature_example.
 Print Assumptions C18_cubic_tangent_example_mid.
 Print Assumptions C18_cubic_normal_example.
+Print Assumptions C18_cubic_tangent_float_close.
+Print Assumptions C18_quad_tangent_float_close.
+Print Assumptions C18_cubic_tangent_float_unit_derivative.
+Print Assumptions C18_quad_tangent_float_unit_derivative.
+Print Assumptions C18_cubic_normal_float_close.
+Print Assumptions C18_quad_normal_float_close.
+Print Assumptions C18_cubic_tangent_float_1e10.
+Print Assumptions C18_quad_tangent_float_1e10.
+Print Assumptions C18_toUnitVector_float_norm.
+Print Assumptions C18_arch_tangent_example.
